@@ -208,6 +208,7 @@ package server
 //@ spec func cachedResp(a *allocation.Allocation) *allocation.allocationResponse = typeis(atomic(a.responseCache), *allocation.allocationResponse) ? atomic(a.responseCache).(*allocation.allocationResponse) : nil
 //@ func handleAllocateRequest
 //@   requires reqWF(req) && stunMsg != nil && req.NonceHash != nil && mgrReady(req.AllocationManager) && req.SrcAddr != nil
+//@   at-call (*allocation.Manager).CreateReservation assert [C19:reservation-recorded] recv == req.AllocationManager && arg0 == reservationToken && arg1 == relayPort
 //@   requires ownAlloc(req) != nil ==> true
 //@   fresh authOK
 //@   at-call buildAndSend assert [C19:correlated] respondsTo(req, stunMsg, arg0, arg1, arg2)
